@@ -106,3 +106,41 @@ package app
 //@   requires s != nil
 //@   modifies consultedAuth, consultedWorkerAuth, consultedAdminAuth, consultedResult
 //@   ensures [C11:admin_tokens_enforced] (s.adminAuthorize == nil ==> result) && (s.adminAuthorize != nil ==> consultedAdminAuth == s.adminAuthorize && result == consultedResult)
+
+// ---- C12: ingress rate limiter ----
+
+//@ spec
+//@ ghost var limiterAsked *tokenBucketLimiter
+//@ ghost var limiterVerdict bool
+//@ ghost var limiterCalls int
+//@ pred bucketOK(l *tokenBucketLimiter) := !nan(l.tokens) && !nan(l.burst) && !nan(l.rate) && l.tokens >= 0 && l.tokens <= l.burst && l.burst >= 1 && l.rate > 0
+//@ lemma [C12:rate_window] forall admitted real, tok real, tok2 real, r real, last real, last2 real, t0 real, rate real, burst real, dt real :: rate > 0 && dt >= 0 && tok >= 0 && tok2 >= 0 && (r == 0 || r == 1) && tok2 + r <= tok + dt * rate && last2 == last + dt && admitted + tok <= burst + rate * (last - t0) ==> admitted + r + tok2 <= burst + rate * (last2 - t0) && admitted + r <= burst + rate * (last2 - t0)
+
+//@ type tokenBucketLimiter monitor mu
+//@   guards tokens, last
+//@   inv [bucket] bucketOK(self)
+
+//@ func newTokenBucketLimiter
+//@   ensures [C12:starts_full] result != nil && !nan(rps) ==> bucketOK(result) && result.tokens == result.burst && result.burst == real(ite(burst <= 0, 1, burst))
+
+//@ func (*tokenBucketLimiter).AllowAt
+//@   requires now != 0
+//@   modifies l.tokens, l.last, limiterAsked, limiterVerdict, limiterCalls
+//@   sets limiterAsked := l
+//@   sets limiterVerdict := result
+//@   sets limiterCalls := old(limiterCalls) + 1
+//@   ensures [C12:nil_limiter_admits] l == nil ==> result
+//@   ensures [C12:step_bound] l != nil ==> real(l.tokens) + ite(result, 1.0, 0.0) <= old(real(l.tokens)) + max(0.0, real(now - ite(old(l.last) == 0, now, old(l.last))) / 1000000000.0) * real(l.rate)
+//@   ensures [C12:refuses_only_when_empty] l != nil && !result ==> l.tokens < 1 && l.tokens == min(real(l.burst), old(real(l.tokens)) + max(0.0, real(now - ite(old(l.last) == 0, now, old(l.last))) / 1000000000.0) * real(l.rate))
+//@   ensures [C12:clock_monotone] l != nil ==> l.last == ite(old(l.last) == 0, now, max(old(l.last), now))
+//@   ensures [recorded] limiterAsked == l && limiterVerdict == result && limiterCalls == old(limiterCalls) + 1
+
+//@ fieldfunc app.runtimeState.now() (t)
+//@   ensures t != 0
+
+//@ func (*runtimeState).allowIngress
+//@   requires s != nil
+//@   modifies tokenBucketLimiter.tokens, tokenBucketLimiter.last, limiterAsked, limiterVerdict, limiterCalls
+//@   ensures [C12:route_limiter_overrides_global] route in s.ingressRouteLimits ==> limiterCalls == old(limiterCalls) + 1 && limiterAsked == s.ingressRouteLimits[route] && result == limiterVerdict
+//@   ensures [C12:else_global_limiter] !(route in s.ingressRouteLimits) && s.ingressGlobalLimit != nil ==> limiterCalls == old(limiterCalls) + 1 && limiterAsked == s.ingressGlobalLimit && result == limiterVerdict
+//@   ensures [C12:unlimited_admits] !(route in s.ingressRouteLimits) && s.ingressGlobalLimit == nil ==> result && limiterCalls == old(limiterCalls)
